@@ -22,6 +22,8 @@ func baseTree(g GenCtx) (*Tree, *rand.Rand) {
 	sc.Sim = SimCfg{Strategy: randStrategy(rng, libGoroutines), NewTimers: rng.Intn(4) == 0, PermuteMaps: true, MaxSteps: 120000, EstSteps: 4000}
 	sc.Sim.Strategy.StallMaxMs = 1500
 	sc.LogYield = rng.Intn(4) == 0
+	sc.ShareHB = rng.Intn(2) == 0
+	sc.BaseRV = world.BaseRVs[rng.Intn(len(world.BaseRVs))]
 	return sc, rng
 }
 
@@ -320,6 +322,33 @@ func genC11(g GenCtx) interface{} {
 	for i := 0; i < nNodes; i++ {
 		mixedNode(b, rng, 4)
 	}
+	if !sc.HoldFirstList && rng.Intn(8) == 0 {
+		// churn: 5..40 consumers come and go below the same publisher while
+		// events flow - whatever a publisher keeps per subscription (sets, cached
+		// delivery lists, counters) must still be right after the N-th one
+		p := b.randParent(rng, 3)
+		for c := 5 + rng.Intn(36); c > 0; c-- {
+			var id int
+			switch rng.Intn(5) {
+			case 0:
+				id = b.add(p, "subf", TAct{Filter: randFilter(rng), Reader: "eager"})
+			case 1:
+				id = b.add(p, "clone", TAct{})
+			case 2:
+				id = b.add(p, "monitor", TAct{})
+			default:
+				id = b.add(p, "sub", TAct{Reader: pick(rng, "eager", "eager", "stalled")})
+			}
+			for w := rng.Intn(3); w > 0; w-- {
+				sc.Acts = append(sc.Acts, writeAct(rng, nkeys))
+			}
+			sc.Acts = append(sc.Acts, TAct{Op: "close", Node: id, Async: rng.Intn(3) == 0})
+			if rng.Intn(6) == 0 {
+				sc.Acts = append(sc.Acts, TAct{Op: "settle"}, TAct{Op: "check"})
+			}
+		}
+		sc.Sim.MaxSteps = 400000
+	}
 	n := rng.Intn(30)
 	closeAt := rng.Intn(n + 1)
 	released := !sc.HoldFirstList
@@ -433,7 +462,7 @@ func genC12(g GenCtx) interface{} {
 
 // ---------------------------------------------------------------- C14
 
-var listFailKinds = []string{"error", "error-with-list", "error-with-full-list", "error-timeout", "error-canceled", "error-canceled-bare", "error-deadline-bare", "nonlist", "nonobjects", "noitems", "nil"}
+var listFailKinds = []string{"error", "error-with-list", "error-with-full-list", "error-timeout", "error-canceled", "error-canceled-bare", "error-deadline-bare", "error-notrunning", "error-notrunning-wrapped", "nonlist", "nonobjects", "noitems", "nil"}
 
 func genC14(g GenCtx) interface{} {
 	sc, rng := baseTree(g)
